@@ -1,6 +1,7 @@
 import Lean.Data.Json
 import Coraza.Model.Engine
 import Coraza.Model.Macro
+import Coraza.Model.Recycle
 import Coraza.Model.Operators
 import Driver.Tf
 import Driver.Op
@@ -153,9 +154,7 @@ def parseCase (s : String) : Except String Case := do
   let calls ← (← j.getObjValAs? (Array String) "calls").toList.mapM parseCall
   pure ⟨mode, rules, get, post, hdr, calls⟩
 
-def initTx (c : Case) : Tx :=
-  let addAll (m : CMap) (ps : List (Bytes × Bytes)) : CMap := ps.foldl (fun m p => m.add p.1 p.2) m
-  { argsGet := addAll {} c.get, argsPost := addAll {} c.post, reqHeaders := addAll {} c.hdr, txc := freshTxc, engine := c.mode }
+def initTx (c : Case) : Tx := feed (freshTx c.mode) c.get c.post c.hdr
 
 /-! ### canonical rendering (must match go/cmd/corr/eng.go) -/
 
@@ -199,6 +198,13 @@ def model (args : List String) : Option String :=
     match parseCase js with
     | .ok c => if outsideModel c then none else some (runCase c)
     | .error _ => none
+  | _ => none
+
+/-- `iso <predecessor case> <probe case>`: by C05_probe the probe's outcome on a recycled
+    transaction equals its outcome on a fresh one, whatever the predecessor did -/
+def isoModel (args : List String) : Option String :=
+  match args with
+  | [_, probe] => model [probe]
   | _ => none
 
 /-- engine monitor = agreement with the model (the model is what the theorems are about) -/
